@@ -96,3 +96,33 @@ deque_harness!(bounded_accessors_vecdeque_rot0, 0, false);
 deque_harness!(bounded_accessors_vecdeque_rot1, 1, false);
 deque_harness!(bounded_accessors_vecdeque_rot2, 2, true);
 deque_harness!(bounded_accessors_vecdeque_rot3, 3, true);
+
+// ---- C02 / C07, bounded: the iterator-form (returned) and the caller-buffer form of the index drivers deliver the same window
+// starts on a backend WITHOUT fast-path overrides (VecDeque), for every window 1..=4 on a 3-element series.
+fn expected_start(i: usize, w: usize, len: usize) -> Option<usize> {
+    let w = if w <= len { w } else { len };
+    if i + 1 >= w { Some(i + 1 - w) } else { None }
+}
+
+#[kani::proof]
+#[kani::unwind(6)]
+fn bounded_index_drivers_vecdeque() {
+    let a: [i32; 3] = [kani::any(), kani::any(), kani::any()];
+    let d: VecDeque<i32> = a.iter().cloned().collect();
+    let d2: VecDeque<i32> = a.iter().cloned().collect();
+    let w: usize = kani::any();
+    kani::assume(1 <= w && w <= 4);
+    // one series, returned path
+    let r1: Vec<(Option<usize>, usize, i32)> = d.rolling_apply_idx(w, |s, e, v| (s, e, v), None).unwrap();
+    // two series, returned path
+    let r2: Vec<(Option<usize>, usize, i32)> = d.rolling2_apply_idx(&d2, w, |s, e, (v, _v2)| (s, e, v), None).unwrap();
+    assert!(r1.len() == 3 && r2.len() == 3);
+    let mut i = 0;
+    while i < 3 {
+        // what is reported at the final position of a window longer than the series is unspecified
+        let free = w > 3 && i == 2;
+        assert!(r1[i].1 == i && r1[i].2 == a[i] && (free || r1[i].0 == expected_start(i, w, 3)));
+        assert!(r2[i].1 == i && r2[i].2 == a[i] && (free || r2[i].0 == expected_start(i, w, 3)));
+        i += 1;
+    }
+}
